@@ -15,6 +15,8 @@ use std::sync::atomic::AtomicU64;
 #[derive(Default)]
 pub struct GenCtx {
     pub entered: AtomicU64,
+    /// operation id -> `request_body_max_bytes()` as the handler saw it
+    pub limits: std::sync::Mutex<std::collections::BTreeMap<String, usize>>,
 }
 
 #[derive(Deserialize, JsonSchema)]
